@@ -557,6 +557,42 @@ def r_comm(E):
                         f"value must be {'neutral for addition' if sym == '+' else 'absorbing for multiplication'} "
                         f"(expected a result of kind {want})", rel, getattr(o.node, "lineno", 0),
                         f"{o.cls}.{m}"))
+    # non-commutative operators: `a - b` / `a / b` handed to the other operand's *same* method with the operands swapped
+    # (`other.__sub__(self)`) computes b - a; only the reflected method (`other.__rsub__(self)`) stands for a - b. The same
+    # the other way round: `__rsub__(self, other)` answered by `self.__sub__(other)` computes self - other for other - self.
+    noncomm = {"__sub__": "__rsub__", "__truediv__": "__rtruediv__", "__floordiv__": "__rfloordiv__", "__mod__": "__rmod__",
+               "__pow__": "__rpow__"}
+    refl = {v: k for k, v in noncomm.items()}
+    scanned = 0
+    for cls in CLASSES:
+        for fn in pm.own_methods(cls):
+            if fn.name not in noncomm and fn.name not in refl:
+                continue
+            params = [a.arg for a in fn.args.args]
+            if len(params) < 2:
+                continue
+            me, ot = params[0], params[1]
+            scanned += 1
+            res.instances += 1
+            # (only a delegation returned as it is: `-(self.__sub__(other))` is a correct reflected difference)
+            for c in [r_.value for r_ in ast.walk(fn) if isinstance(r_, ast.Return) and isinstance(r_.value, ast.Call)
+                      and isinstance(r_.value.func, ast.Attribute) and isinstance(r_.value.func.value, ast.Name)
+                      and len(r_.value.args) == 1 and isinstance(r_.value.args[0], ast.Name) and not r_.value.keywords]:
+                recv, arg, m = c.func.value.id, c.args[0].id, c.func.attr
+                sym = {"__sub__": "-", "__truediv__": "/", "__floordiv__": "//", "__mod__": "%", "__pow__": "**"}[
+                    fn.name if fn.name in noncomm else refl[fn.name]]
+                bad = None
+                if fn.name in noncomm and recv == ot and arg == me and m == fn.name:
+                    bad = f"`{me} {sym} {ot}` is answered by `{ot}.{m}({me})`, which computes `{ot} {sym} {me}`"
+                elif fn.name in refl and recv == me and arg == ot and m == refl[fn.name]:
+                    bad = f"the reflected `{ot} {sym} {me}` is answered by `{me}.{m}({ot})`, which computes `{me} {sym} {ot}`"
+                if bad:
+                    res.findings.append(Finding(
+                        "R-COMM", f"{cls}.{fn.name} :: swapped delegation of a non-commutative operator",
+                        f"{cls}.{fn.name}: {bad}: the operands of a non-commutative operation are exchanged (an empty value "
+                        f"minus a quantity comes out as that quantity, with the wrong sign)", rel, c.lineno, f"{cls}.{fn.name}"))
+    if scanned < 3:
+        raise AnalysisError(f"R-COMM: only {scanned} non-commutative operator methods found")
     res.floor = 28
     return res
 
